@@ -312,6 +312,7 @@ type program struct {
 	sites []site
 	caps  []string // every capture group of the program
 	id    int
+	deco  string // name of the program's decorator ("" = none)
 }
 
 func (p *program) add(ind, s string) { p.lines = append(p.lines, ind+s) }
@@ -359,6 +360,7 @@ func genProgram(r *vlib.Rand, id int) *program {
 	}
 	p.hole("top-level-early", "", false, nil)
 	if useDeco {
+		p.deco = deco
 		p.add("", "def "+deco+" {")
 		pfx := "pfx" + sfx
 		p.add("  ", "/^(?P<"+pfx+">\\S+) / {")
@@ -470,6 +472,10 @@ type defect struct {
 	maxRe int      // configured regex length limit in bytes (0 = the default 1024)
 }
 
+// defects whose description starts with this marker are always taken when their
+// site is visited (not subject to the per-class sampling)
+const mustMark = "[always] "
+
 func defectsFor(r *vlib.Rand, p *program, s site, k int) []defect {
 	n := progNames[p]
 	u := strconv.Itoa(p.id) + "x" + strconv.Itoa(k)
@@ -494,6 +500,19 @@ func defectsFor(r *vlib.Rand, p *program, s site, k int) []defect {
 		if !vis[c] {
 			inExpr(2, "capture group defined only in another block", "$"+c)
 			break
+		}
+	}
+	if p.deco != "" && !s.inDef && s.name != "top-level-early" {
+		// the same decorator used at two sites in different scopes: what is visible at
+		// the first use (the capture group of its enclosing pattern) is not visible
+		// at the second; every use gets its own copy of the decorator's scope
+		fz := "fz" + u
+		re := "fz (?P<" + fz + ">\\d+)"
+		out = append(out, defect{2, "capture group visible only at another use of the same decorator",
+			"/" + re + "/ {\n  @" + p.deco + " {\n    " + n.c + " += $" + fz + "\n  }\n}\n@" + p.deco + " {\n  " + n.c + " += $" + fz + "\n}",
+			"statement", []string{"fz (?P<" + fz + ">\\d+)"}, 0})
+		if k%3 == 0 {
+			out[len(out)-1].what = mustMark + out[len(out)-1].what
 		}
 	}
 	// 3 undefined decorator
@@ -861,7 +880,7 @@ func main() {
 					}
 				}
 				for j := range l {
-					if picked[j] {
+					if picked[j] || strings.HasPrefix(l[j].what, mustMark) {
 						d := l[j]
 						record(out, name, p.render(k, d.stmt), valid, cname, &d, s.name, d.extra)
 					}
